@@ -433,7 +433,7 @@ static const char *lay_name[] = {"Tensor(ptr)", "Tensor(ptr,RowMajor)", "Tensor(
                                  "Tensor(std::array,ColumnMajor)", "Tensor(std::vector,ColumnMajor)", "tocolumnmajor(x)", "torowmajor(x)", "torowmajor(tocolumnmajor(x))",
                                  "tocolumnmajor(torowmajor(x))", "tocolumnmajor(TensorMap)"};
 template <class T, size_t... S>
-void layout_thunk(const T *p, T *out) { vf::ArmedThunk vf_armed_;
+void layout_thunk(const T *p, T *out) {
   using Ten = Tensor<T, S...>; constexpr size_t n = Ten::size(), rank = sizeof...(S); constexpr size_t dims[] = {S...};
   auto emit = [&](int k, const Ten &t) { std::copy(t.data(), t.data() + n, out + (size_t)k * n); };
   { Ten t(p); emit(0, t); }
